@@ -198,6 +198,8 @@ _SHM_GROUPS = [
     dict(name="faults", harness="shmstore", weight=3, runs=dict(quick=1200, thorough=30000), opts=dict(faults=True, stale=True)),
     dict(name="noreuse", harness="shmstore", weight=3, runs=dict(quick=1500, thorough=40000), opts=dict(reuse=False, stale=True)),
     dict(name="noreuse-faults", harness="shmstore", weight=2, runs=dict(quick=800, thorough=20000), opts=dict(reuse=False, stale=True, faults=True)),
+    # client processes with their own resource trackers exit while others go on using the store (no leaked handles in these plans)
+    dict(name="procs-exit", harness="shmstore", weight=1, runs=dict(quick=400, thorough=10000), opts=dict(reuse=False, rtracker=True)),
     dict(name="enum-disk", harness="shmstore", weight=3, runs=dict(quick=96, thorough=4000), opts=dict(),
          enumerate=dict(kinds=["disk"], quick=30, thorough=None)),
 ]
